@@ -163,6 +163,11 @@ def layouts(pat, old, new, fmt, tier):
         if len(s) == 2 and not any(fp.anchor_l or fp.anchor_r for fp in s):
             f = projgen.build_file("a.txt", s, ("one-line", (1, 0)), "ascii", "CRLF", False)
             yield (f"one-line:{ids}", [f], [("a.txt", [fp.raw for fp in s])])
+        # characters that str.splitlines() takes for line boundaries (FF, ESC-free control characters, U+2028) on the version line and in the
+        # context lines; text whose length changes under normalisation
+        for fill, regime in (("ctrl", "LF"), ("invisible", "CRLF"), ("decomposed", "LF")):
+            f = projgen.build_file("a.txt", s, "own-lines", fill, regime, True)
+            yield (f"own:{ids}:{fill}:{regime}", [f], [("a.txt", [fp.raw for fp in s])])
         # a file that begins with a UTF-8 byte order mark (.NET / Windows editors), with the occurrence further down and on line 1
         for regime, arr in (("CRLF", "own-lines"), ("LF", "single-line")):
             if arr == "single-line" and len(s) != 1:
